@@ -133,6 +133,59 @@ func lockScenario(name string, pop []int, cancelIdx int) *explore.Scenario {
 	}}
 }
 
+// barrierScenario: a release that unblocks several waiters must grant all of them. Holder H takes W(a,b); the waiters are
+// mutually compatible and each, once granted, keeps its lock until every waiter has been granted (a barrier). With a correct
+// locker this always completes whoever arrives first; if a release grants only some of the waiters it deadlocks.
+func barrierScenario(name string, waiters []int) *explore.Scenario {
+	return &explore.Scenario{Name: name, Exec: func(r *explore.Replayer) explore.Outcome {
+		s := verifrt.New(r)
+		locker := command.NewDefaultLocker()
+		ctx := quietCtx()
+		granted := 0
+		var order []string
+		all := verifrt.MakeChan[struct{}]()
+		s.Spawn("H:W(a,b)", false, func() {
+			unlock, err := locker.Lock(ctx, command.Accounts{Write: []string{"a", "b"}})
+			if err != nil {
+				return
+			}
+			order = append(order, "H")
+			verifrt.Point("holding W(a,b)")
+			unlock(ctx)
+		})
+		for i, k := range waiters {
+			i, req := i, lockShapes[k]
+			s.Spawn(fmt.Sprintf("W%d:%s", i, req.Name), false, func() {
+				unlock, err := locker.Lock(ctx, req.Acc)
+				if err != nil {
+					return
+				}
+				order = append(order, fmt.Sprint(i))
+				granted++
+				if granted == len(waiters) {
+					all.Close()
+				}
+				all.Recv() // barrier: wait until every waiter holds its lock
+				unlock(ctx)
+			})
+		}
+		reason := s.Run()
+		viol, vkey := "", ""
+		if reason == verifrt.Deadlock {
+			viol = fmt.Sprintf("after the holder released, only %d of %d mutually compatible waiters were granted: a pending request is not granted although no conflicting holder remains (%s)", granted, len(waiters), strings.Join(s.PendingDescs(), " | "))
+			vkey = "partial-grant"
+		}
+		for _, t := range s.Threads() {
+			if t.Panic != nil && viol == "" {
+				viol, vkey = fmt.Sprintf("panic in %s: %v", t.Name, t.Panic), "panic"
+			}
+		}
+		s.KillAll()
+		lab := "order=" + strings.Join(order, "")
+		return explore.Outcome{State: lab, Label: lab, Violation: viol, VKey: vkey}
+	}}
+}
+
 func pairKey(a, b string) string {
 	if a > b {
 		a, b = b, a
@@ -159,6 +212,10 @@ func planC15() []planItem {
 				}
 			}
 		}
+	}
+	// one release must grant every waiter it unblocks (waiter sets: mutually compatible shapes)
+	for _, ws := range [][]int{{1, 2}, {1, 1}, {0, 2}, {1, 5}, {5, 5}, {1, 1, 2}, {1, 1, 5}, {3, 1}} {
+		out = append(out, planItem{register(barrierScenario(fmt.Sprintf("barrier-%v", ws), ws)), 3, 4})
 	}
 	// four requests (thorough)
 	for i := 0; i < n; i++ {
